@@ -5,5 +5,6 @@ CONSTANT FailKinds = {"none", "call", "load"}
 CONSTANT ForceMulti = {TRUE}
 CONSTANT SepExit = TRUE
 CONSTANT Mutant = "overlap"
-CONSTANT KeepHist = FALSE
+CONSTANT KeepHist = "none"
 INVARIANT NoDuplicate
+VIEW view
